@@ -23,16 +23,24 @@ Theorem C17_hup_keeps_term : forall st r m r' e,
 Proof. exact prevote_hup_keeps_term. Qed.
 Print Assumptions C17_hup_keeps_term.
 
-(* a pre-candidate raises its term only when a MsgPreVoteResp completes the tally over the
-   joint configuration (the decision function of C12), or a leader message of its term arrives *)
+(* a pre-candidate raises its term only when a MsgPreVoteResp (a rejection, or a grant for
+   exactly Term+1) completes the tally over the joint configuration (the decision function
+   of C12), or a leader message of its term arrives *)
 Theorem C17_precandidate_term_raise : forall st r m r' e,
   r_state r = StatePreCandidate -> step_candidate st r m = Ok (r', e) -> r_term r' <> r_term r ->
   from_leader (m_type m) = true \/
-  (m_type m = MsgPreVoteResp /\
+  (m_type m = MsgPreVoteResp /\ (m_reject m = true \/ m_term m = r_term r + 1) /\
    joint_vote (c_voters (t_config (r_trk r))) (c_outgoing (t_config (r_trk r)))
               (t_votes (record_vote (r_trk r) (m_from m) (negb (m_reject m)))) <> VotePending).
 Proof. exact precandidate_term_raise. Qed.
 Print Assumptions C17_precandidate_term_raise.
+
+(* a pre-vote grant for any other term (a stale answer to an earlier pre-campaign) is ignored *)
+Theorem C17_stale_grant_ignored : forall st r m r' e,
+  r_state r = StatePreCandidate -> m_type m = MsgPreVoteResp -> m_reject m = false ->
+  m_term m <> r_term r + 1 -> step_candidate st r m = Ok (r', e) -> r' = r.
+Proof. exact stale_prevote_grant_ignored. Qed.
+Print Assumptions C17_stale_grant_ignored.
 
 (* CheckQuorum lease: inside the election timeout of a known leader, a non-forced higher-term
    vote or pre-vote request changes nothing and produces nothing *)
